@@ -1,6 +1,7 @@
 package bash
 
 import (
+	"errors"
 	"fmt"
 	"slices"
 	"strings"
@@ -200,6 +201,10 @@ func (c *converter) ForEnd() error {
 }
 
 func (c *converter) Break() error {
+	// A break within a switch which is not part of a loop is not supported yet.
+	if len(c.forVars) == 0 {
+		return errors.New("break outside of a loop is not supported")
+	}
 	c.addLine("break") // TODO: Break within switch. This might be a good solution -> https://stackoverflow.com/a/30874026.
 	return nil
 }
